@@ -689,6 +689,194 @@ def _pm(ps):
     return {p.name: p for p in ps}
 
 
+# ------------------------------------------------------------------ Round 6: variables from the REAL allocators
+_SESSION_IDS: dict = {}  # id -> (kind, call description) for every variable handed out through a recipe
+
+
+def _note_alloc(ctx, v, call):
+    """allocator invariant: ids handed out by the two `.fresh` classmethods in one session are pairwise distinct,
+    also across kinds"""
+    kind = type(v).__name__
+    prev = _SESSION_IDS.get(v.id)
+    if prev is not None and ctx is not None:
+        ctx.violation(
+            f"alloc:{prev[0]}/{kind}",
+            f"the fresh-id allocators handed out id {v.id} twice: {prev[1]} -> {prev[0]}#{v.id}, then {call} -> {kind}#{v.id}",
+            {"first_call": prev[1], "second_call": call, "id": v.id, "kinds": [prev[0], kind]},
+        )
+    _SESSION_IDS[v.id] = (kind, call)
+
+
+def run_recipe(recipe, ctx=None):
+    """execute a sequence of REAL allocator calls; returns the list `v` of created objects.
+    ops: ["T",name,cp,dr] ExistentialTypeVar.fresh | ["C",name] ExistentialConstVar.fresh(name, nat) |
+         ["TP",name,cp,dr] TypeParam.to_existential | ["CP",name] ConstParam.to_existential |
+         ["UNQ",[name...]] (forall T0, n0, T1, n1 ... . (array[Ti, ni]...) -> (Ti...)).unquantified(): pushes its
+         variables, then the instantiated function type |
+         ["ALIGN"] allocate (observing only the ids returned) until a fresh type variable and a fresh const variable
+         are as close as the allocators allow: with one shared counter nothing can be aligned, with per-kind
+         counters the next variables of the two kinds get EQUAL ids"""
+    from guppylang_internals.tys import builtin as B
+    from guppylang_internals.tys import ty as T
+    from guppylang_internals.tys.const import ExistentialConstVar
+    from guppylang_internals.tys.param import ConstParam, TypeParam
+
+    v = []
+    for op in recipe:
+        k = op[0]
+        if k == "T":
+            x = T.ExistentialTypeVar.fresh(op[1], bool(op[2]), bool(op[3]))
+            _note_alloc(ctx, x, f"ExistentialTypeVar.fresh({op[1]!r})")
+            v.append(x)
+        elif k == "C":
+            x = ExistentialConstVar.fresh(op[1], B.nat_type())
+            _note_alloc(ctx, x, f"ExistentialConstVar.fresh({op[1]!r}, nat)")
+            v.append(x)
+        elif k == "TP":
+            _a, x = TypeParam(0, op[1], bool(op[2]), bool(op[3])).to_existential()
+            _note_alloc(ctx, x, f"TypeParam({op[1]!r}).to_existential()")
+            v.append(x)
+        elif k == "CP":
+            _a, x = ConstParam(0, op[1], B.nat_type()).to_existential()
+            _note_alloc(ctx, x, f"ConstParam({op[1]!r}, nat).to_existential()")
+            v.append(x)
+        elif k == "UNQ":
+            names = op[1]
+            ps, ins, outs = [], [], []
+            for j in range(0, len(names) - 1, 2):
+                tp = TypeParam(j, names[j], True, True)
+                cp = ConstParam(j + 1, names[j + 1], B.nat_type())
+                ps += [tp, cp]
+                ins.append(T.FuncInput(B.array_type(tp.to_bound().ty, cp.to_bound().const), T.InputFlags.Inout))
+                outs.append(tp.to_bound().ty)
+            f = T.FunctionType(ins, T.TupleType(outs), ps)
+            inst, xs = f.unquantified()
+            for x in xs:
+                _note_alloc(ctx, x, f"FunctionType.unquantified() [{x.display_name}]")
+                v.append(x)
+            v.append(inst)
+        elif k == "ALIGN":
+            t = T.ExistentialTypeVar.fresh("A", True, True)
+            _note_alloc(ctx, t, "ExistentialTypeVar.fresh('A') [align]")
+            c = ExistentialConstVar.fresh("a", B.nat_type())
+            _note_alloc(ctx, c, "ExistentialConstVar.fresh('a', nat) [align]")
+            for _ in range(200000):
+                if c.id < t.id:
+                    c2 = ExistentialConstVar.fresh("a", B.nat_type())
+                    _note_alloc(ctx, c2, "ExistentialConstVar.fresh('a', nat) [align]")
+                    if c2.id > t.id and c2.id - t.id == 1 and c2.id - c.id == 2:
+                        break  # one shared counter: cannot get closer
+                    c = c2
+                elif t.id < c.id:
+                    t2 = T.ExistentialTypeVar.fresh("A", True, True)
+                    _note_alloc(ctx, t2, "ExistentialTypeVar.fresh('A') [align]")
+                    if t2.id > c.id and t2.id - c.id == 1 and t2.id - t.id == 2:
+                        break
+                    t = t2
+                else:
+                    break
+        else:
+            raise AssertionError(op)
+    return v
+
+
+def build_shape(shape: str, v):
+    from guppylang_internals.tys import builtin as B
+    from guppylang_internals.tys import ty as T
+    from guppylang_internals.tys.arg import ConstArg, TypeArg
+
+    W = world()
+    ns = dict(
+        v=v, T=T, I=B.int_type(), N=B.nat_type(), Bo=B.bool_type(),
+        tup=lambda *ts: T.TupleType(list(ts)),
+        arr=lambda t, c: T.OpaqueType([TypeArg(t), ConstArg(c)], W.opaques["array"]),
+        fa=lambda t, c: T.OpaqueType([TypeArg(t), ConstArg(c)], W.opaques["frozenarray"]),
+        opt=lambda t: T.OpaqueType([TypeArg(t)], W.opaques["Option"]),
+        G2=lambda t, c: T.StructType([TypeArg(t), ConstArg(c)], W.structs["G2"]),
+        Ph=lambda t, c: T.StructType([TypeArg(t), ConstArg(c)], W.structs["Ph"]),
+        fn=lambda ins, out: T.FunctionType([T.FuncInput(i, T.InputFlags.NoFlags) for i in ins], out),
+    )
+    return eval(shape, ns)  # noqa: S307 - recipes are generated here or come from our corpus
+
+
+def gen_alloc(ctx, n):
+    """(recipe, shape) pairs: k variables of each kind allocated in lockstep through the real allocators (equal display
+    names included), all mentioned in one printed type"""
+    rng = ctx.rng
+    out = []
+    for _ in range(n):
+        k = rng.choice([1, 2, 2, 3, 4])
+        names_t = rng.choice([["T"], ["T", "U"], ["T", "n"]])
+        names_c = rng.choice([["n"], ["n", "m"], ["T", "n"]])
+        recipe = [["ALIGN"]]
+        tv, cv, fns = [], [], []
+        idx = 0
+        for _i in range(k):
+            r = rng.random()
+            if r < 0.15 and k >= 2:
+                nm = [rng.choice(names_t), rng.choice(names_c)]
+                recipe.append(["UNQ", nm])
+                tv.append(idx)
+                cv.append(idx + 1)
+                fns.append(idx + 2)
+                idx += 3
+                continue
+            first_t = rng.random() < 0.5
+            ops = [["T" if rng.random() < 0.6 else "TP", rng.choice(names_t), 1, 1],
+                   ["C" if rng.random() < 0.6 else "CP", rng.choice(names_c)]]
+            if not first_t:
+                ops.reverse()
+            for op in ops:
+                recipe.append(op)
+                (tv if op[0] in ("T", "TP") else cv).append(idx)
+                idx += 1
+        pairs = list(zip(tv, cv))
+        parts = []
+        for (a, b) in pairs:
+            form = rng.choice(["arr", "fa", "G2", "Ph", "arr"])
+            parts.append(f"{form}(v[{a}], v[{b}])")
+        # cross pairs and repeated mentions
+        for _j in range(rng.choice([0, 1, 2])):
+            parts.append(rng.choice([f"v[{rng.choice(tv)}]", f"arr(I, v[{rng.choice(cv)}])",
+                                     f"opt(v[{rng.choice(tv)}])", f"arr(v[{rng.choice(tv)}], v[{rng.choice(cv)}])"]))
+        parts += [f"v[{f}]" for f in fns]
+        rng.shuffle(parts)
+        form = rng.choice(["tup", "one", "fn", "nest"])
+        if form == "one" and len(parts) == 1:
+            shape = parts[0]
+        elif form == "fn":
+            shape = f"fn([{', '.join(parts[:-1])}], {parts[-1]})"
+        elif form == "nest":
+            shape = f"opt(tup({', '.join(parts)}))"
+        else:
+            shape = f"tup({', '.join(parts)})"
+        out.append((recipe, shape))
+    return out
+
+
+def real_occs_kinded(t):
+    """like real_occs, but an existential variable is identified by (class, id) -- equality of the variable objects"""
+    from guppylang_internals.tys.printing import TypePrinter
+    from guppylang_internals.tys.var import ExistentialVar
+
+    pr = TypePrinter()
+    orig = pr._visit
+    occs = []
+
+    def traced(ty, inside_row):
+        s = orig(ty, inside_row)
+        if isinstance(ty, ExistentialVar):
+            occs.append((type(ty).__name__, ty.id, s))
+        return s
+
+    pr._visit = traced
+    try:
+        pr.visit(t)
+    except BaseException:  # noqa: BLE001
+        return None
+    return occs
+
+
 def _corpus(ctx):
     """witness types from corpus/c31/*.json: {"ctx": [...], "build": "<python expr over helpers>"}"""
     d = os.path.join(vlib.VERIF, "corpus", "c31")
@@ -698,7 +886,20 @@ def _corpus(ctx):
     for fn in sorted(os.listdir(d)):
         if fn.endswith(".json"):
             for item in json.load(open(os.path.join(d, fn))):
-                out.append((fn, item))
+                if "recipe" not in item:
+                    out.append((fn, item))
+    return out
+
+
+def _corpus_recipes():
+    d = os.path.join(vlib.VERIF, "corpus", "c31")
+    out = []
+    if os.path.isdir(d):
+        for fn in sorted(os.listdir(d)):
+            if fn.endswith(".json"):
+                for item in json.load(open(os.path.join(d, fn))):
+                    if "recipe" in item:
+                        out.append((fn, item))
     return out
 
 
@@ -779,6 +980,19 @@ def tie(ctx):
         cases.append((s, ps, t, ""))
     for s, ps, t in gen_functions(ctx, ctx.n(1200, 25000)):
         cases.append((s, ps, t, ""))
+    recipes = {}  # index into cases -> (recipe, shape)
+    al = [(item["recipe"], item["shape"], fn) for fn, item in _corpus_recipes()]
+    if ctx.replay_in and "recipe" in ctx.replay_in.get("replay", {}):
+        al.append((ctx.replay_in["replay"]["recipe"], ctx.replay_in["replay"]["shape"], "replay"))
+    al += [(r, sh, "") for r, sh in gen_alloc(ctx, ctx.n(250, 4000))]
+    for recipe, shape, label in al:
+        try:
+            t = build_shape(shape, run_recipe(recipe, ctx))
+        except BaseException as ex:  # noqa: BLE001
+            ctx.broke(f"recipe {recipe} / {shape} cannot be built: {ex!r}")
+            continue
+        recipes[len(cases)] = (recipe, shape)
+        cases.append(("al", [], t, label))
     mutants = gen_mutants(ctx, ctx.n(800, 15000))
 
     lines = [W.env_line] + [_req(ps, t) for _s, ps, t, _l in cases]
@@ -797,7 +1011,7 @@ def tie(ctx):
         raise vlib.Infra("C31 driver rejected the environment: " + replies[0])
     pos = 1
 
-    for (stream, ps, t, label) in cases:
+    for ci, (stream, ps, t, label) in enumerate(cases):
         line = lines[pos]
         m = replies[pos]
         pos += 1
@@ -842,6 +1056,18 @@ def tie(ctx):
         elif stream == "fo" and label and rp != "CRASH" and not (t2 is not None and t2 == t):
             # corpus witnesses outside the theorem's class (documented findings): still failing inputs of the property
             ctx.violation(key, f"printed type `{rp[2:]}` does not read back as the same type: {r_read}", replay)
+        if stream == "al":
+            ko = real_occs_kinded(t)
+            kinds = {k for k, _i, _s in (ko or [])}
+            ctx.bump("alloc:both-kinds" if len(kinds) == 2 else "alloc:one-kind")
+            if ko is not None and not names_ok(ko):
+                recipe, shape = recipes[ci]
+                ctx.violation(
+                    "recipe:" + json.dumps([recipe, shape]),
+                    f"variables created by the real allocators ({recipe}) placed in `{shape}` print as `{rp[2:]}`: "
+                    f"two different variables share a name or one has two: {ko}",
+                    {"recipe": recipe, "shape": shape, "stream": "al", "type": line, "printed": rp, "occurrences": ko},
+                )
         if ninc and occs is not None and not names_ok(occs):
             ctx.violation(key + "#names", f"two distinct variables share a printed name or one variable has two names in `{rp[2:]}`: {occs}", replay)
         # ---- correspondence model vs real
